@@ -201,6 +201,23 @@ func (h *c17host) serve(conn net.Conn) {
 						return
 					}
 				}
+			case "trickleConfig":
+				// announces a 600-byte reply and sends it a byte at a time, pausing less than the probe's timeout between
+				// bytes: data keeps arriving, the reply never completes in time
+				go io.Copy(io.Discard, conn)
+				hdr := c17frame(uint16(llrp.MsgGetReaderConfigResponse), mid, make([]byte, 600))[:10]
+				conn.Write(hdr)
+				for {
+					select {
+					case <-h.stop:
+						return
+					case <-time.After(80 * time.Millisecond):
+					}
+					if _, err := conn.Write([]byte{0}); err != nil {
+						<-h.stop
+						return
+					}
+				}
 			case "closeMidExchange":
 				return
 			case "configRefused":
@@ -424,7 +441,7 @@ func TestVerifC17(t *testing.T) {
 	id := c17ident{true, 0, []byte{1, 2, 3}}
 	nocaps := c17caps{}
 	behaviours := []string{"refuse", "closeAfterAccept", "acceptSilent", "stallPartialHello", "garbage", "helloRefused", "helloWrongType",
-		"stallMidHandshake", "garbageMidHandshake", "stallMidExchange", "closeMidExchange", "configRefused", "stallCaps", "capsRefused", "byeRefused", "correct"}
+		"stallMidHandshake", "garbageMidHandshake", "stallMidExchange", "trickleConfig", "closeMidExchange", "configRefused", "stallCaps", "capsRefused", "byeRefused", "correct"}
 	if thorough {
 		// peer closes during version negotiation: with a client without timeout this is the Connect hang that belongs to
 		// property C09 (pkg/llrp/reader.go, repaired elsewhere); the probing client has a timeout once C17's repair is in
